@@ -16,6 +16,7 @@ def program(mir_files=('/verif/.cache/liwe.mir',), crates=('crates/liwe',), repo
             tts.append(tt)
         if any(c.endswith('iwes') for c in crates):
             tts.append(external_table('lsp-types-0.95.1', 'lsp_types'))
+            tts.append(external_table('lsp-server-0.7.8', 'lsp_server'))
         _PROG = Program(list(mir_files), tts)
         natives.install(_PROG)
     return _PROG
